@@ -14,14 +14,14 @@ Reading guide.
   the second cursor slot. Cursor slot `2i` belongs to root `r1[i]`, slot `2i+1` to `r2[i]`.
 * `f … = some x` means: the Rust routine returns `x` without reaching a panic site (assert,
   debug_assert, overflow check, index check) or an out-of-bounds `get_unchecked`, in either profile.
-  The theorems below are of the form "whenever the model returns, the result is complete"
-  (`… = some s → …`): absence of panics on valid inputs is NOT proved here (it is exercised by the
-  correspondence stream in both build profiles). Which positions are reported (log accumulation,
-  thresholds) is not modelled: the theorems quantify over every position `r` of the block.
+  `no_panic` proves this for the whole pipeline `new; (sieve_block; next_block)^b; sieve_block; factor
+  recovery at any position` on valid inputs (fresh tables); the other theorems say what is returned.
+  Which positions are reported (log accumulation, thresholds, u8 accumulators) is not modelled: the
+  theorems quantify over every position `r` of the block.
 * `Dividers::{modu16, modi64, divmod_uint}` are exact (`%`, `/`) by property C08
   (`Ymq.C08.modu16_spec`, `modi64_spec`); the u16/u32 arithmetic around them is explicit in the model.
 -/
-import Ymq.Lemmas.SieveRun
+import Ymq.Lemmas.SieveTotal
 import Ymq.Lemmas.SieveCofactor
 
 namespace Ymq.C13
@@ -336,6 +336,66 @@ example : (FB.ofPrimes #[2, 5, 32771]).WF ∧ RootsOK (FB.ofPrimes #[2, 5, 32771
   have hi : i < 3 := (Array.getElem?_eq_some_iff.1 hp).1
   have : i = 0 ∨ i = 1 ∨ i = 2 := by omega
   rcases this with rfl | rfl | rfl <;> simp [FB.ofPrimes] at hp <;> subst hp <;> simp
+
+/-- `no_panic`. On valid inputs — well-formed non-empty factor base, reduced roots, two different roots for
+every prime ≥ 32768 (the debug assertion of `new`), at most 2^17 blocks (interval ≤ 2^32), a start offset
+within ±2^62, fresh tables — no panic site of the modelled code is reached: `Sieve::new` returns, and for
+every block `b < nblocks` the `b` rounds `sieve_block(); next_block()`, the next `sieve_block()`, the factor
+recovery of `smooths` at EVERY position of the block and the following `next_block()` all return
+(no underflow in `len - p - m`, no `u16`/`u32` overflow, every checked index and every `get_unchecked`
+index in range, all loops terminate). -/
+theorem no_panic (fb : FB) (hfb : fb.WF) (hne : fb.primes.size ≠ 0) (r1 r2 : Array Nat)
+    (hr : RootsOK fb r1 r2) (hd : RootsDistinct fb r1 r2) (offset : Int) (ho1 : -2 ^ 62 ≤ offset)
+    (ho2 : offset ≤ 2 ^ 62) (nblocks : Nat) (hN : nblocks ≤ 2 ^ 17) :
+    ∃ s0, Sieve.new offset nblocks fb r1 r2 none = some s0 ∧
+      ∀ b, b < nblocks → ∃ s1 s s2, runBlocks fb b s0 = some s1 ∧ sieveBlock fb s1 = some s ∧
+        (∀ r, r < 32768 → ∃ facs, factorsOf fb s r1 r2 r = some facs) ∧ nextBlock s = some s2 := by
+  obtain ⟨nS, hnS⟩ := hfb.ibl_some 16 (by omega)
+  obtain ⟨s0, h0, hsz0, hsk0⟩ := new_total (offset := offset) hfb hne hr hd hN hnS
+  obtain ⟨b0, n0, f0, inv0⟩ := new_spec hfb hr (fun _ _ h => by simp at h) hnS h0
+  refine ⟨s0, h0, ?_⟩
+  -- the state after b rounds
+  have hrun : ∀ b, b ≤ nblocks → ∃ s1, runBlocks fb b s0 = some s1 ∧ Inv fb nS r1 r2 r1 r2 b s1 ∧
+      StateSized nblocks s1 ∧ s1.idxskip ≤ 2 * nS ∧ s1.blkNo = b ∧ s1.offset = offset + b * BLOCK := by
+    intro b
+    induction b with
+    | zero => intro _; exact ⟨s0, rfl, inv0, hsz0, hsk0, b0, by rw [f0]; simp⟩
+    | succ b ih =>
+      intro hb
+      obtain ⟨s1, h1, inv1, sz1, sk1, bk1, of1⟩ := ih (by omega)
+      obtain ⟨s, hs⟩ := sieveBlock_some hfb hnS inv1 sk1 sz1 (by omega)
+      obtain ⟨inv2, _, bk2, nb2, of2, tb2, lt2, is2⟩ := sieveBlock_spec hfb hnS inv1 hs
+      have hnx : ¬ s.offset + (BLOCK : Int) ≥ 2 ^ 63 := by
+        rw [of2, of1]
+        have : (b : Int) < 2 ^ 17 := by exact_mod_cast (by omega : b < 2 ^ 17)
+        simp only [BLOCK]; push_cast; omega
+      refine ⟨{ s with offset := s.offset + BLOCK, blkNo := s.blkNo + 1 }, ?_, ?_, ?_, by simpa [is2] using sk1,
+        by simp [bk2, bk1], by simp only [of2, of1]; push_cast; ring⟩
+      · simp only [runBlocks, h1, hs, nextBlock, hnx, if_false, Option.bind_eq_bind, Option.bind_some]
+      · exact (nextBlock_spec inv2 (s' := { s with offset := s.offset + BLOCK, blkNo := s.blkNo + 1 })
+          (by simp only [nextBlock, hnx, if_false])).1
+      · exact ⟨by simp [nb2, sz1.nb], by simpa [tb2] using sz1.tabs, by simpa [lt2] using sz1.ltabs⟩
+  intro b hb
+  obtain ⟨s1, h1, inv1, sz1, sk1, bk1, of1⟩ := hrun b (by omega)
+  obtain ⟨s, hs⟩ := sieveBlock_some hfb hnS inv1 sk1 sz1 (by omega)
+  obtain ⟨inv2, hprev, bk2, nb2, of2, tb2, lt2, is2⟩ := sieveBlock_spec hfb hnS inv1 hs
+  have hsz : StateSized nblocks s := ⟨by rw [nb2, sz1.nb], by rw [tb2]; exact sz1.tabs, by rw [lt2]; exact sz1.ltabs⟩
+  have hnx : ¬ s.offset + (BLOCK : Int) ≥ 2 ^ 63 := by
+    rw [of2, of1]
+    have : (b : Int) < 2 ^ 17 := by exact_mod_cast (by omega : b < 2 ^ 17)
+    simp only [BLOCK]; push_cast; omega
+  refine ⟨s1, s, { s with offset := s.offset + BLOCK, blkNo := s.blkNo + 1 }, h1, hs, ?_, by simp only [nextBlock, hnx, if_false]⟩
+  intro r hr'
+  exact factorsOf_some hfb hnS hr hprev inv2.tsize hsz (by rw [bk2, bk1]; exact hb) hN (by simpa [BLOCK] using hr')
+
+/-- non-vacuity of `no_panic`: the hypotheses hold for a small factor base with a prime of size class 16. -/
+example : (FB.ofPrimes #[2, 5, 32771]).WF ∧ (FB.ofPrimes #[2, 5, 32771]).primes.size ≠ 0 ∧
+    RootsDistinct (FB.ofPrimes #[2, 5, 32771]) #[0, 3, 7] #[1, 4, 100] := by
+  refine ⟨FB.ofPrimes_WF _ (by decide) (by decide), by decide, ?_⟩
+  intro i p hp hge
+  have hi : i < 3 := (Array.getElem?_eq_some_iff.1 hp).1
+  have : i = 0 ∨ i = 1 ∨ i = 2 := by omega
+  rcases this with rfl | rfl | rfl <;> simp [FB.ofPrimes] at hp <;> subst hp <;> simp at hge ⊢
 
 /-- `cofactor_spec`. Whenever `fbase::cofactor` returns `Some(((p, q), factors))` for a non-zero value `x`:
 the factors (`(-1, 1)` for a negative value, then `(prime, exponent)` with positive exponents, all of them
